@@ -42,6 +42,13 @@ Proof. exact session_block_in_order. Qed.
 Print Assumptions c03_session_block_in_order.
 
 (** Non-vacuity: three splits interleaved, shard size 2. *)
+(** ... and so does every pass of the Rust interface (composition regenerated from RustGenerator._single_iter). *)
+Theorem c03_rust_pass_in_order :
+  forall (path ex : Type) (read : path -> list ex) (process : ex -> ex) pickA permA hp paths,
+  anr path ex read process pickA permA 0 hp paths = spec path ex read process hp paths.
+Proof. exact anr_ordered. Qed.
+Print Assumptions c03_rust_pass_in_order.
+
 Theorem c03_nonvacuous :
   let ops := [WWrite Train None true; WWrite Test None true; WWrite Train None true; WWrite Train None false;
               WWrite Train None true; WWrite Test None true; WWrite Holdout None true; WWrite Train None true] in
